@@ -16,7 +16,8 @@ EXPLANATION = (
     "writer format string contains the separators the reader splits on ('}{', top-level blank or "
     "sign). R18c: default-name mapping uses the same split logic as is_t_amplitude/is_gs_density. "
     "R18d: reader arithmetic (sign table, numerator/denominator order, every term added once, "
-    "exponent restored, NO / bracket recursion forwards convert_default_names).")
+    "exponent restored, NO / bracket recursion forwards convert_default_names). R18e: re-applying "
+    "the assumptions: Expr.__init__ applies declared bra-ket (anti)symmetry whenever either list is non-empty.")
 ASSUMPTIONS = [
     "sympy's own printer for sums, fractions, powers and NO is trusted",
     "re-print equality is not decided",
@@ -302,7 +303,14 @@ def r18d(ctx):
     ctx.check(rule, stt, ok, "terms split at top-level signs only", "term splitting changed", key="split terms")
 
 
+def r18e(ctx):
+    from . import c06
+    c06.init_symmetry(ctx, "R18e")
+
+
 def run(ctx):
+    if ctx.want("R18e"):
+        r18e(ctx)
     for r, f in (("R18a", r18a), ("R18b", r18b), ("R18b'", r18bp), ("R18c", r18c), ("R18d", r18d)):
         if ctx.want(r):
             f(ctx)
